@@ -181,7 +181,10 @@ class C03(Prop):
         if "err" in ix:
             return {"index": ix}
         fi = ctx.fasta_index(ix["idx"], case["buf"])
-        out = F.stream_impl(fi, case["scaffolds"], case["L"])
+        # every second case: the same index object has streamed the assembly before, with lower-case gaps,
+        # another line length and another buffer size
+        earlier = (b"n", 7, max(1, case["buf"] // 2 + 3)) if (case["buf"] + case["L"] + len(case["data"])) % 2 else None
+        out = F.stream_impl(fi, case["scaffolds"], case["L"], earlier)
         asm = Assembly("x")
         for sc in case["scaffolds"]:
             asm.add_scaffold(A.scaffold_to_obj(sc))
